@@ -6,6 +6,7 @@ import Driver.Parse
 import Driver.Load
 import Driver.Build
 import Driver.Reflect
+import Driver.Disas
 /-!
 Line-protocol driver: evaluates the Lean model's executable definitions on requests read from stdin,
 one response per line. Built as a `lean_exe` (imports nothing outside core/Std).
@@ -38,6 +39,9 @@ def respond (line : String) : String :=
   | some r => r
   | none =>
   match respondReflect ws with
+  | some r => r
+  | none =>
+  match respondDisas ws with
   | some r => r
   | none => "bad-request"
 
